@@ -208,6 +208,22 @@ func planC14(tier string, root *simcore.RNG) *plan {
 			add(fmt.Sprintf("lines:%d:%d", n, style))
 		}
 	}
+	// E14: facets that list no vertex at all (first, middle, last, all), and loads that start
+	// with 0, 1 or 2 free file descriptors (files large enough for any parallel decoding)
+	for _, n := range []int{1, 2, 3, 8} {
+		b := bs("ascii", n)
+		for i := 0; i < n; i++ {
+			add(b, fmt.Sprintf("empty-facet:%d", i))
+		}
+		if n > 1 {
+			add(b, "empty-facet:0", fmt.Sprintf("empty-facet:%d", n-1))
+		}
+	}
+	for _, b := range []string{bs("bin", 40), bs("bin", 1024), bs("bin", 4096), bs("bin", 20000), bs("ascii", 30), bs("ascii", 600)} {
+		for k := 0; k <= 2; k++ {
+			add(b, fmt.Sprintf("fds-left:%d", k))
+		}
+	}
 	// E7: what the path is
 	for _, b := range []string{bs("bin", 2), bs("ascii", 2), bs("bin", 0)} {
 		for _, op := range []string{"as-symlink", "as-directory", "as-devnull", "as-devzero", "as-missing", "odd-name"} {
